@@ -133,6 +133,8 @@ pub enum Op
     Poll,
     /// A plain Bevy command that does nothing (besides its marker).
     Nop,
+    /// Drop the harness-held auto-despawn signal of a trigger entity (prepared at setup, see `Config::auto_ents`).
+    DropSignal(EntId),
 }
 
 impl Op
@@ -151,7 +153,7 @@ impl Op
         match *self
         {
             Op::EntityEvent(_, e) | Op::Insert(_, e, _) | Op::Mutate(_, e, _) | Op::RemoveComp(_, e) |
-            Op::Clear(e) | Op::Despawn(e) | Op::DespawnRecursive(e) => Some(e),
+            Op::Clear(e) | Op::Despawn(e) | Op::DespawnRecursive(e) | Op::DropSignal(e) => Some(e),
             _ => None,
         }
     }
